@@ -266,6 +266,11 @@ class Normaliser:
             if isinstance(v_, ast.Call) and isinstance(v_.func, ast.Name) and v_.func.id == "divmod" and len(v_.args) == 2 and not v_.keywords \
                     and isinstance(e.slice, ast.Constant) and e.slice.value in (0, 1):
                 return self.rat(ast.BinOp(left=v_.args[0], op=ast.Mod() if e.slice.value == 1 else ast.FloorDiv(), right=v_.args[1]))
+            # x[j][:, i] is x[j, :, i] (j a scalar index)
+            if isinstance(v_, ast.Subscript) and not isinstance(v_.slice, (ast.Slice, ast.Tuple)) and isinstance(v_.slice, (ast.Name, ast.Constant)) \
+                    and isinstance(e.slice, ast.Tuple) and not isinstance(e.value, ast.Name):
+                merged = ast.Subscript(value=v_.value, slice=ast.Tuple(elts=[v_.slice, *e.slice.elts], ctx=ast.Load()), ctx=ast.Load())
+                return self.rat(merged)
             base = self.rat(e.value)
             elts = getattr(base, "elts", None)
             if elts is not None and isinstance(e.slice, ast.Constant) and isinstance(e.slice.value, int) and not isinstance(e.slice.value, bool) and -len(elts) <= e.slice.value < len(elts):
